@@ -9,6 +9,7 @@ import (
 	"go/token"
 	"go/types"
 	"os"
+	"regexp"
 	"sort"
 	"strings"
 
@@ -142,8 +143,16 @@ func smtName(s string) string {
 	return r.Replace(s)
 }
 
+var smtReserved = map[string]bool{"store": true, "select": true, "and": true, "or": true, "not": true, "ite": true, "let": true, "forall": true, "exists": true,
+	"div": true, "mod": true, "abs": true, "distinct": true, "true": true, "false": true, "xor": true, "par": true, "as": true, "is": true, "match": true,
+	"set": true, "bag": true, "seq": true, "str": true, "re": true, "fp": true, "bv": true, "int": true, "real": true, "array": true, "member": true, "subset": true,
+	"union": true, "insert": true, "card": true, "to_real": true, "to_int": true, "is_int": true, "exp": true, "sin": true, "cos": true, "tan": true, "sqrt": true, "pi": true}
+
 func (fx *FuncCtx) freshName(base string) string {
 	base = smtName(base)
+	if smtReserved[base] {
+		base += "_v"
+	}
 	n := fx.freshN[base]
 	fx.freshN[base] = n + 1
 	if n == 0 {
@@ -354,7 +363,7 @@ func instantiate(h string, grounds []string, goalIdx []string, out *[]string) {
 				gs = append(gs, sterm{!r.neg, r.t})
 			}
 			c := sumOf(cancelTerms(gs)).S
-			if !seen[c] && len(c) < 200 && !strings.Contains(c, q) {
+			if !seen[c] && len(c) < 200 && replaceSym(c, q, "") == c {
 				seen[c] = true
 				grounds = append(grounds, c)
 			}
@@ -500,7 +509,7 @@ func (fx *FuncCtx) buildQuery(hyps []Term, goal Term) string {
 			{
 				var keep []string
 				for _, g := range goalIdx {
-					if !strings.Contains(g, "q_") {
+					if !hasBoundVar(g) {
 						keep = append(keep, g)
 					}
 				}
@@ -512,7 +521,7 @@ func (fx *FuncCtx) buildQuery(hyps []Term, goal Term) string {
 			}
 			var grounds []string
 			for g := range acc {
-				if len(g) < 200 && !strings.Contains(g, "q_") {
+				if len(g) < 200 && !hasBoundVar(g) {
 					grounds = append(grounds, g)
 				}
 			}
@@ -797,4 +806,12 @@ func (fx *FuncCtx) strLit(s string) StrV {
 	fx.declare(fmt.Sprintf("(declare-const %s Str)", id))
 	lit := s
 	return StrV{ID: Term{id, SStr}, Len: IntLit(int64(len(s))), Lit: &lit}
+}
+
+var skPrefixRe = regexp.MustCompile(`ske?![0-9!]*q_`)
+
+// hasBoundVar: does the term mention a quantifier-bound variable (named q_*)?
+// Skolem constants (sk!q_*, ske!N!q_*) do not count.
+func hasBoundVar(g string) bool {
+	return strings.Contains(skPrefixRe.ReplaceAllString(g, "SK_"), "q_")
 }
